@@ -44,6 +44,7 @@ func checkC16(p *Prog, r *Report) {
 	c16Outage(p, r)
 	c17NilStore16(p, r)
 	c16AddKeepsPool(p, r)
+	c16Heartbeats(p, r)
 }
 
 func c17NilStore16(p *Prog, r *Report) {
@@ -1076,4 +1077,133 @@ func c16AddKeepsPool(p *Prog, r *Report) {
 		})
 	}
 	r.check(len(bad) == 0 && n > 0, rule, "Session.OnEvent#AddEvent", p.Pos(onEvent.Pos()), fmt.Sprintf("%d LoadOrStore site(s)", n), strings.Join(dedupe(bad), " || "))
+}
+
+
+// c16Heartbeats: what the heartbeat loop of a connection needs to detect a dead or hung backend,
+// and only that.
+func c16Heartbeats(p *Prog, r *Report) {
+	const rule = "C16.heartbeats"
+	r.Rule(rule, "a connection is heartbeated with the protocol version its own handshake negotiated (or one that was compared equal to it); the idle timer of the heartbeat loop is re-armed only after a SUPPORTED answer to a heartbeat of that iteration (never because requests are in flight, which is exactly the situation of a backend that stopped answering)")
+	cc := p.Named("proxycore", "ClientConn")
+	hb := p.methodOf(cc, "Heartbeats")
+	hs := p.methodOf(cc, "Handshake")
+	if hb == nil || hs == nil {
+		fatalf("rule %s: ClientConn.Heartbeats / Handshake not found", rule)
+	}
+	// (a) version argument at every start of a heartbeat loop
+	var verIdx = -1
+	for i, par := range hb.Params {
+		if typeIs(par.Type(), "primitive", "ProtocolVersion") {
+			verIdx = i
+		}
+	}
+	if verIdx < 0 {
+		fatalf("rule %s: Heartbeats takes no protocol version", rule)
+	}
+	nstart := 0
+	for _, fn := range p.ScopedFuncs("proxycore", "proxy") {
+		eachInstr(fn, func(in ssa.Instruction) {
+			var cm *ssa.CallCommon
+			switch x := in.(type) {
+			case *ssa.Go:
+				cm = &x.Call
+			case *ssa.Call:
+				cm = &x.Call
+			default:
+				return
+			}
+			if cm.StaticCallee() != hb {
+				return
+			}
+			nstart++
+			v := cm.Args[verIdx]
+			conn := cm.Args[0]
+			// the handshake of this connection in the same function
+			var neg ssa.Value
+			var req ssa.Value
+			eachCall(fn, func(c ssa.CallInstruction) {
+				if c.Common().StaticCallee() == hs && sameValue(c.Common().Args[0], conn) {
+					if cv, ok := c.(ssa.Value); ok {
+						for _, ref := range *cv.Referrers() {
+							if ex, ok := ref.(*ssa.Extract); ok && ex.Index == 0 {
+								neg = ex
+							}
+						}
+					}
+					for _, a := range c.Common().Args[1:] {
+						if typeIs(a.Type(), "primitive", "ProtocolVersion") {
+							req = a
+						}
+					}
+				}
+			})
+			sameV := func(a, b ssa.Value) bool {
+				if a == b || sameValue(a, b) {
+					return true
+				}
+				pa, pb := fieldPath(a), fieldPath(b)
+				return pa == pb && strings.Contains(pa, ".") && !strings.HasPrefix(pa, "?") && !strings.HasPrefix(pa, "phi") && !strings.HasPrefix(pa, "local")
+			}
+			ok := false
+			var why string
+			switch {
+			case neg == nil:
+				why = "no handshake of this connection in " + fn.Name()
+			case v == neg || sameValue(v, neg):
+				ok = true
+			default:
+				// the requested version, when every path to here compared it equal to the negotiated one
+				if req != nil && sameV(v, req) {
+					for _, ct := range dominatingConds(in.Block()) {
+						bo, isBo := ct.Cond.(*ssa.BinOp)
+						if !isBo {
+							continue
+						}
+						pair := (bo.X == neg && sameV(bo.Y, req)) || (bo.Y == neg && sameV(bo.X, req))
+						if pair && ((bo.Op == token.NEQ && !ct.Truth) || (bo.Op == token.EQL && ct.Truth)) {
+							ok = true
+						}
+					}
+				}
+				why = "the heartbeat version is " + valDesc(v) + ", not the version negotiated by this connection's handshake (and not compared equal to it on every path): after a downgrade every heartbeat is refused and the healthy connection is closed after the idle timeout"
+			}
+			owner := ""
+			if rn := recvNamed(fn); rn != nil {
+				owner = rn.Obj().Name() + "."
+			}
+			r.check(ok, rule, "start@"+owner+fn.Name(), p.Pos(in.Pos()), "negotiated version", why)
+		})
+	}
+	if nstart < 2 {
+		fatalf("rule %s: only %d starts of the heartbeat loop found (2 confirmed by hand)", rule, nstart)
+	}
+	// (b) re-arming the idle timer
+	var bad []string
+	nreset := 0
+	eachCall(hb, func(c ssa.CallInstruction) {
+		callee := c.Common().StaticCallee()
+		if callee == nil || callee.String() != "(*time.Timer).Reset" {
+			return
+		}
+		nreset++
+		okGuard := false
+		// (the round trip may live in a boolean helper that answers true only for SUPPORTED)
+		for _, ct := range impliedConds(c.Block()) {
+			ex, ok := ct.Cond.(*ssa.Extract)
+			if !ok || !ct.Truth {
+				continue
+			}
+			if ta, ok := ex.Tuple.(*ssa.TypeAssert); ok && typeIs(ta.AssertedType, "message", "Supported") {
+				okGuard = true
+			}
+		}
+		if !okGuard {
+			bad = append(bad, p.Pos(c.Pos())+": the idle timer is re-armed without a SUPPORTED answer to a heartbeat: a backend that hangs (with requests in flight or not) is never detected and its connection never replaced")
+		}
+	})
+	if nreset == 0 {
+		bad = append(bad, "the idle timer is never re-armed")
+	}
+	r.check(len(bad) == 0, rule, "ClientConn.Heartbeats:idle-timer", p.Pos(hb.Pos()), fmt.Sprintf("%d re-arm site(s)", nreset), strings.Join(dedupe(bad), " || "))
 }
